@@ -195,7 +195,9 @@ def rule_shortcircuit(ctx, p: Project):
                     continue
                 # partial (mapper-only) slot standing for another quantity
                 gtest = [i.test for i, taken in br if _test_mentions(i.test, txt) is True and taken]
-                if any(_all_mappers_conjunct(t, s) for t in gtest):
+                allm = (f"{s}.total(cls=AbstractMapper) == len({s}.linear_obj_list)", f"len({s}.linear_obj_list) == {s}.total(cls=AbstractMapper)")
+                pcs = wire.path_conds(f, stmt, inline=True)   # every condition on the way to the return, temporaries looked through
+                if any(_all_mappers_conjunct(t, s) for t in gtest) or (guarded and any((t in allm and truth) or (t == f"{s}.has(cls={FUNC_LIST})" and not truth) for t, truth in pcs)):
                     ctx.ob(rule, inst + ":result", True, detail=f"slot recorded from {sorted(Q)} stands for `{R}` only under the all-mappers condition")
                 elif f.cls is not None and _only_read_without_func_lists(p, f):
                     ctx.ob(rule, inst + ":result", True, detail=f"slot recorded from {sorted(Q)} stands for `{R}`, which is only read where no linear function list is present")
